@@ -62,4 +62,24 @@ def touchedBy (S : List Key) : List Op → List Key
       | some k => addKey k S
       | none => S) ops
 
+/-! ### concurrent callers -/
+
+/-- The schedules of concurrent callers WHEN EVERY CALL IS ATOMIC: some merge of the callers' call lists that keeps
+    each caller's own order. `progs[i]` is what caller `i` still has to issue. -/
+inductive Interleaving : List (List Op) → List Op → Prop
+  | done {progs : List (List Op)} : (∀ p ∈ progs, p = []) → Interleaving progs []
+  | step {progs : List (List Op)} {op : Op} {rest sched : List Op} (i : Nat) (hi : i < progs.length) :
+      progs[i] = op :: rest → Interleaving (progs.set i rest) sched → Interleaving progs (op :: sched)
+
+/-- ASSUMPTION, named (it is what makes `Interleaving` the right notion of a concurrent execution; it is not proved
+    in Lean, it is tied to the source by regenerated facts):
+    * in memory every public call is one critical section — fact `locksCoverAll` (`t.Lock(); defer t.Unlock()` first in
+      Set/Get/Remove/Clear) together with the declaration surface (the embedded lock is `sync.RWMutex`);
+    * on redis a consuming read without update-ttl is the single command GETDEL — fact `rdsCommands` — and the server
+      executes each command atomically (redis' single-threaded command execution; assumed, modelled by `rGetDel`
+      being one step). -/
+structure AtomicCalls (f : Facts) : Prop where
+  memCallsLocked : f.locksCoverAll = true
+  rdsConsumeIsGetDel : f.rdsCommands = true
+
 end Nv.C05
